@@ -234,7 +234,7 @@ def main():
             "guard": "SIMPLE_DDL_PARSER_VERIF",
             "enable": "export SIMPLE_DDL_PARSER_VERIF=1 before importing simple_ddl_parser (pure Python, nothing to build); the harness installs _verif.sink / _verif.scheduler",
             "baseline_off_cmd": "cd /repo && env -u SIMPLE_DDL_PARSER_VERIF /venv/bin/python -m pytest -ra -q -p no:cacheprovider --timeout=900 --continue-on-collection-errors",
-            "source_commits": ["04a33f1"],
+            "source_commits": ["04a33f1", "bf818b6"],
             "add_only": True,
         },
         "engines": [
